@@ -200,6 +200,41 @@ def evaluate(ck, recs):
             op = st["op"]
             ok = st.get("err") is None and not st.get("panic")
             bump("%s:%s" % (op, "ok" if ok else (st.get("panic") and "panic:" + st["panic"]) or st.get("err")))
+            if op == "restart":
+                # fresh Chain + PrepareCache over the same database: must succeed, change nothing, expose the DB tip with its body
+                tip = st.get("tip_after")
+                dbt = db_tip(st["post"])
+                excused = bool(lost) and any(owner_missing(x, st["post"]) for x in blocks)
+                if st.get("panic") or st.get("err") is not None:
+                    fail(DUP_KEY if (excused and not st.get("panic")) else "c05:restart:prepare-cache-failed",
+                         "restart step #%d: PrepareCache failed (%s%s)" % (ix, st.get("panic") or st.get("err"),
+                                                                         "; getBlock of a block whose transaction record was removed" if excused else ""),
+                         r, ix, observed=st.get("err"))
+                    if st.get("panic"):
+                        break
+                    continue
+                if st["pre"] != st["post"]:
+                    fail("c05:restart:changed-db", "restart step #%d changed the database" % ix, r, ix)
+                if dbt is not None and tip is None and excused:
+                    fail(DUP_KEY, "restart step #%d: PrepareCache could not read the last block (getBlock of a block whose transaction "
+                         "record was removed) and left the block cache empty" % ix, r, ix, observed=None)
+                elif dbt is not None and (tip is None or tip["height"] != dbt[0] or tip["id"] != dbt[1]):
+                    fail("c05:restart:cached-tip-differs", "after restart step #%d the cached tip %s differs from the database tip %s" % (
+                        ix, json.dumps(tip), dbt), r, ix, observed=tip)
+                elif tip is not None and tip.get("body_ok") is not True and not excused:
+                    fail("c05:tip:cached-body-differs", "after restart step #%d the cached tip block does not encode to the stored block" % ix,
+                         r, ix, observed=tip)
+                after = 0
+                for nxt in r["steps"][ix + 1:]:
+                    if nxt["op"] == "delete" and nxt.get("err") is None and not nxt.get("panic"):
+                        after += 1
+                    else:
+                        break
+                if after >= 2:
+                    floors["restarts followed by at least two deletes"] = floors.get("restarts followed by at least two deletes", 0) + 1
+                    if r.get("scripted"):
+                        floors["scripted restart followed by at least two deletes"] = floors.get("scripted restart followed by at least two deletes", 0) + 1
+                continue
             if st.get("panic"):
                 fail("c05:panic:%s:%s" % (op, st["panic"]), "%s step #%d panicked at %s" % (op, ix, st["panic"]), r, ix, observed=st["panic"])
                 bump("history abandoned after a panic")
@@ -443,6 +478,31 @@ def evaluate_e(ck, recs):
             op = st["op"]
             ok = st.get("err") == "ok" and not st.get("panic")
             bump("%s:%s" % (op, st.get("err") if not st.get("panic") else "panic"))
+            if op == "restart":
+                # process restart in the middle of the history: Init incl. PrepareCache must succeed, change nothing (33|h records
+                # are compared canonicalised) and expose the database tip with its full body
+                tip = st.get("tip_after")
+                dbt = db_tip(st["post"])
+                if st.get("panic") or st.get("err") != "ok":
+                    fail("c05:executer:restart-step", "restart step #%d failed: %s" % (ix, st.get("panic") or st.get("err")), r, ix)
+                    break
+                if st["pre"] != st["post"]:
+                    fail("c05:executer:restart-step:changed-db", "restart step #%d changed the database" % ix, r, ix)
+                if dbt is not None and (tip is None or tip["height"] != dbt[0] or tip["id"] != dbt[1]):
+                    fail("c05:executer:restart-step:tip", "after restart step #%d the cached tip %s differs from the database tip %s" % (
+                        ix, json.dumps(tip), dbt), r, ix, observed=tip)
+                elif tip is not None and tip.get("body_ok") is not True:
+                    fail("c05:executer:tip:cached-body-differs", "after restart step #%d the cached tip block does not encode to the stored "
+                         "block" % ix, r, ix, observed=tip)
+                after = 0
+                for nxt in r["steps"][ix + 1:]:
+                    if nxt["op"] == "delete" and nxt.get("err") == "ok":
+                        after += 1
+                    else:
+                        break
+                if after >= 2 and r["idx"] == 0:
+                    floor("executer scripted restart followed by at least two deletes")
+                continue
             if st.get("panic"):
                 fail("c05:executer:panic:%s" % op, "Executer %s step #%d panicked: %s" % (op, ix, st["panic"]), r, ix, observed=st["panic"])
                 continue
@@ -639,8 +699,9 @@ def run(ck):
     fc = ck.extra.get("floor_counts", {})
     for name, least in (("scripted blockchain-level history", 1), ("drain histories", 1), ("restore checks in the scripted history", 3),
                         ("deletes followed by a flush comparison", 3), ("histories with a final flush comparison", 1),
-                        ("dup-tx scenario evaluated", 1), ("executer restore checks in the scripted history", 2),
-                        ("executer deletes followed by a flush comparison", 2), ("executer twin probes evaluated", 1)):
+                        ("scripted restart followed by at least two deletes", 1), ("dup-tx scenario evaluated", 1), ("executer restore checks in the scripted history", 2),
+                        ("executer deletes followed by a flush comparison", 2), ("executer twin probes evaluated", 1),
+                        ("executer scripted restart followed by at least two deletes", 1)):
         ck.obligations += 1
         if fc.get(name, 0) >= least:
             ck.discharged += 1
